@@ -338,7 +338,7 @@ func runC06(c *Ctx) {
 	c.AddCount("product_cases", int64(len(cases)))
 	c.ParallelFor(int64(len(cases)), func(w *Worker, i int64) { c06check(w, cases[i], hook, i) })
 	// (2) random
-	n := c.pick(400000, 15000000)
+	n := c.pick(1000000, 15000000)
 	c.ParallelFor(n, func(w *Worker, i int64) {
 		r := newRng(c.Seed, 0xc06, uint64(i))
 		cs := c06case{X: c06randX(r, o), Dir: randDir(r, genOpts{}, r.Chance(1, 5)), Word: wrapperWords[r.Intn(len(wrapperWords))], RV: r.Chance(1, 8)}
